@@ -204,6 +204,18 @@ def fire_message(w, addr, thread, name, sent, tag=None, side='client', strarg=No
     return w.bp_invoke.stop()
 
 
+def fire_closure(w, addr, thread, closure, sent, side='client', iface='wl_display'):
+    """any closure (a gdbworld.Closure) hits a closure breakpoint"""
+    gdb = w.gdb
+    clo = build_closure(gdb, closure)
+    gdb._State.thread = gdb._Thread(thread)
+    if sent:
+        gdb._State.frame = frames_sent(gdb, clo, addr)
+        return w.bp_send.stop()
+    gdb._State.frame = frames_received(gdb, clo, side, addr, iface)
+    return w.bp_invoke.stop()
+
+
 def fire_destroy(w, addr, thread=1):
     gdb = w.gdb
     gdb._State.thread = gdb._Thread(thread)
